@@ -17,22 +17,18 @@ type GYear struct {
 var _ objecttypes.Value = GYear{}
 
 func MapGYear(lexicalForm string) (GYear, error) {
-	lexicalForm = xsdutil.WhiteSpaceCollapse(lexicalForm)
-
-	for _, layout := range []string{
+	parsed, layout, ok := parseTimeLexicalForm(xsdutil.WhiteSpaceCollapse(lexicalForm), gYearLexicalRE,
 		"2006",
 		"2006Z07:00",
-	} {
-		parsed, err := time.Parse(layout, lexicalForm)
-		if err == nil {
-			return GYear{
-				Time:   parsed,
-				Layout: layout,
-			}, nil
-		}
+	)
+	if !ok {
+		return GYear{}, rdf.ErrLiteralLexicalFormNotValid
 	}
 
-	return GYear{}, rdf.ErrLiteralLexicalFormNotValid
+	return GYear{
+		Time:   parsed,
+		Layout: layout,
+	}, nil
 }
 
 func (v GYear) AsObjectValue() rdf.ObjectValue {
